@@ -56,7 +56,7 @@ class ProgGen:
 
     SIMPLE_DIMS = None
 
-    def __init__(self, rng, db: UnitDB, pool: UnitPool, tag="a", allow_inexact=False, allow_zero=True):
+    def __init__(self, rng, db: UnitDB, pool: UnitPool, tag="a", allow_inexact=False, allow_zero=True, const_eval_edges=False):
         self.rng, self.db, self.pool, self.tag = rng, db, pool, tag
         self.allow_zero = allow_zero      # zero is dimension-polymorphic: mutation sites next to a zero are not sound
         self.n = 0
@@ -68,6 +68,7 @@ class ProgGen:
         self.units = {}      # name -> dim
         self.dims = {}       # derived dimension name -> dim vector
         self.allow_inexact = allow_inexact
+        self.const_eval_edges = const_eval_edges
         # units by exact dimension vector
         self.units_by_dim = {}
         for name in pool.names:
@@ -146,6 +147,20 @@ class ProgGen:
         """(text, exact rational, float_exact)"""
         rng = self.rng
         r = rng.random()
+        if self.const_eval_edges and rng.random() < 0.5:
+            # corners of the checker's compile-time exponent evaluation (powers inside the exponent, negative and
+            # zero exponents, nested negation, division chains). Today's checker rejects a negative integer power
+            # inside an exponent ("overflow in const-eval"); such programs are then simply not judged by C01.
+            return rng.choice([
+                ("(2^(-1))", Fraction(1, 2), True), ("(2^-1)", Fraction(1, 2), True), ("(4^-1 * 2)", Fraction(1, 2), True),
+                ("(2^-2 * 8)", Fraction(2), True), ("((-2)^2)", Fraction(4), True), ("((-2)^3 + 9)", Fraction(1), True),
+                ("(-(2^2) + 5)", Fraction(1), True), ("(-2^2 + 6)", Fraction(2), True), ("(2^0)", Fraction(1), True),
+                ("(2^3^0)", Fraction(2), True), ("((1/2)^2 * 8)", Fraction(2), True), ("((2/3)^2 * 9/2)", Fraction(2), True),
+                ("(1 / 2 / 2 * 8)", Fraction(2), True), ("(3 - 1 - 1)", Fraction(1), True), ("(2 - -1)", Fraction(3), True),
+                ("(6 / 3 / 2 + 1)", Fraction(2), True), ("(-(-2))", Fraction(2), True), ("(2 * -1 + 4)", Fraction(2), True),
+                ("(1/4 + 1/4)", Fraction(1, 2), True), ("(3/2 - 1)", Fraction(1, 2), True), ("(1 / (1/2))", Fraction(2), True),
+                ("(2^2^-1)", Fraction(0), True) if False else ("(9^(1/2))", Fraction(3), True),
+            ])
         if r < 0.45:
             k = rng.choice([2, 3, -1, -2, 0, 1, 4])
             return (str(k) if k >= 0 else f"({k})"), Fraction(k), True
